@@ -1255,7 +1255,7 @@ def check_c10(tier, seed):
     return history_property(
         # the initial file is large enough that no commit has to extend it: a writer that must remap the file waits for every
         # open reader, and the single-threaded interpreter holds the pinned reader itself (it would wait for ever, by design)
-        "C10", tier, seed, cases_c10(tier, seed), dict(pagesize=1024, num_pages=3000 if tier == "quick" else 16000),
+        "C10", tier, seed, cases_c10(tier, seed), dict(pagesize=1024, num_pages=3000 if tier == "quick" else 8000),
         "long runs (quick 300, thorough 1500 transactions) over 40 keys: fixed-size single-page overwrites, fixed-size multi-page values, "
         "variable sizes with deletes, nested bucket create/fill/delete; with a reader pinned for 50 commits, with reopen every 25/40 commits; "
         "the high-water mark is read from EVERY committed header by the Gallina decoder: no growth between warm-up and the pin, growth only "
